@@ -431,9 +431,9 @@ fn udp_case(seed: u64, i: u64, rep: &mut Report) {
 
 pub fn run(a: &Args) -> Report {
     let seed = a.seed;
-    let n = a.n(60, 900);
+    let n = a.n(300, 1200);
     let mut rep = parallel(n, a.threads, |i, rep| one_case(seed, i as u64, rep));
-    let r2 = parallel(a.n(42, 420), a.threads, |i, rep| udp_case(seed, i as u64, rep));
+    let r2 = parallel(a.n(168, 840), a.threads, |i, rep| udp_case(seed, i as u64, rep));
     rep.merge(r2);
     rep
 }
